@@ -73,7 +73,14 @@ func init() {
 		func(tier string) []EnvCfg {
 			e := defaultEnv()
 			e.MaxValidators = 3
-			e.Setup = append(append([]TxSpec{}, e.Setup...), TxSpec{Kind: "node_stake", Signer: "N3", Args: map[string]string{"node": "N3", "value": "1000000", "output": "N3", "chains": "0001"}})
+			// N3 starts 4% above the minimum stake: a downtime slash (1%) jails it above the minimum, a double-sign
+			// slash (5%) of the already jailed node then takes it below
+			e.Setup = append(append([]TxSpec{}, e.Setup...), TxSpec{Kind: "node_stake", Signer: "N3", Args: map[string]string{"node": "N3", "value": "1040000", "output": "N3", "chains": "0001"}})
+			if tier == "thorough" {
+				e2 := e
+				e2.Setup = append(append([]TxSpec{}, e.Setup[:len(e.Setup)-1]...), TxSpec{Kind: "node_stake", Signer: "N3", Args: map[string]string{"node": "N3", "value": "1000000", "output": "N3", "chains": "0001"}})
+				return []EnvCfg{e, e2}
+			}
 			return []EnvCfg{e}
 		},
 		func() []BlockSpec {
@@ -84,6 +91,7 @@ func init() {
 				{Evidence: []string{"N1"}},
 				{Evidence: []string{"N3"}},
 				{Evidence: []string{"N2@1"}}, // too old
+				{Evidence: []string{"N3@-3"}}, // infraction committed three blocks ago (when the node may still have had power)
 				{TimeJump: 2},
 				{},
 				blk(tx("node_unjail", "N1", "node", "N1", "as", "N1")),
